@@ -278,7 +278,7 @@ _add(
          "rule; (d) exactly constructed t_delta == 0 ties. One evaluation = one step judged; distinct = (part, trainer, "
          "cell type, delay values, sign mode, reduction, batch, reward kind, active/silent).",
     required=["formula_steps_checked", "steps_with_change", "steps_before_both_sides_spiked", "trainer_clears", "cross_steps_checked",
-              "zero_delay_steps_checked", "ties_checked", "tensor_valued_kernel_kwargs_cases", "multicell_steps_checked", "kernel_delayed_substep_delay_steps", "multicell_calls_limited_to_named_cells"],
+              "zero_delay_steps_checked", "ties_checked", "tensor_valued_kernel_kwargs_cases", "multicell_steps_checked", "kernel_delayed_substep_delay_steps", "multicell_calls_limited_to_named_cells", "user_kernel_cases"],
     floor={"quick": 60, "thorough": 150},
     text="Held on every history explored: the change applied by each real delay-adjusted / kernel trainer after every "
          "step equals the documented function of t_delta built from the true most-recent spike times and the delay read "
@@ -317,7 +317,7 @@ _add(
          "different (sample 0 silent, sample 1 saturated, the rest random); 5-25 steps each. One evaluation = one step in "
          "which every sample of every observable is compared with its single-sample twin (or the sum of per-sample "
          "trainer steps); distinct = (component kind, class, batch size, delay, ...).",
-    required=["steps_checked", "sample_comparisons", "trainer_steps_checked", "resized_components", "mid_run_clears", "single_connection_biclique_steps", "trainer_cases_with_cell_level_reduction"],
+    required=["steps_checked", "sample_comparisons", "trainer_steps_checked", "resized_components", "mid_run_clears", "single_connection_biclique_steps", "trainer_cases_with_cell_level_reduction", "trainer_cases_with_sign_changing_user_kernel"],
     floor={"quick": 60, "thorough": 200},
     text="Held on every run explored: sample b of every output, state tensor and history tensor of a batched real "
          "component equals what an identically parameterised batch-size-1 twin produces for that sample alone, at every "
